@@ -147,6 +147,15 @@ static bool __attribute__((noinline)) act(int me, int depth)
     return go;
 }
 
+/* any size is a valid stack size: half of the coroutines get one that is not a multiple of 16 (or 8, or 2) */
+static size_t pick_stack_size(void)
+{
+    size_t ss = 64 * 1024;
+    if (vr_chance(&R, 1, 2)) { ss = 56 * 1024 + (size_t)vr_below(&R, 24 * 1024); if (vr_chance(&R, 1, 2)) ss = (ss & ~(size_t)15) + 8; }
+    if (ss % 16) VR_CNT("stacks_with_size_not_multiple_of_16");
+    return ss;
+}
+
 static void *body(struct cmi_coroutine *self, void *ctx)
 {
     int me = (int)(intptr_t)ctx;
@@ -185,7 +194,7 @@ static void case_api(void)
     probe_entry_target = (void *)body;
     for (int k = 0; k < nco; k++) {
         co[k] = cmi_coroutine_create();
-        cmi_coroutine_initialize(co[k], probe_entry, (void *)(intptr_t)k, NULL, 64 * 1024);
+        cmi_coroutine_initialize(co[k], probe_entry, (void *)(intptr_t)k, NULL, pick_stack_size());
         st[k] = ST_CREATED; caller_of[k] = MAIN; parent_of[k] = MAIN; kids[k] = 0; started[k] = 0;
     }
     cur = MAIN; exited_pending = false;
@@ -271,7 +280,7 @@ static void case_raw(void)
     probe_entry_target = (void *)raw_body; probe_exit_target = (void *)raw_exit_func;
     for (int k = 0; k < nraw; k++) {
         raw[k] = cmi_coroutine_create();
-        cmi_coroutine_initialize(raw[k], probe_entry, (void *)(intptr_t)k, probe_exit_entry, 64 * 1024);
+        cmi_coroutine_initialize(raw[k], probe_entry, (void *)(intptr_t)k, probe_exit_entry, pick_stack_size());
         cmi_coroutine_context_init(raw[k]);
         raw_started[k] = 0; raw_done[k] = 0;
     }
